@@ -63,7 +63,7 @@ func init() {
 		// order), then a further data-key rotation and writes: everything must stay readable
 		for i, mk := range keys {
 			mk := mk
-			s := strings.Fields("S A F A B F K K K K K K A S F A B F R")
+			s := strings.Fields("S A F A B F K K K K K K A S F A X B F X A X S F R")
 			e.do(fmt.Sprintf("rotations/mk%d", len(mk)), func() (c, d string) {
 				inBubble(e.t, func() { c, d = c23Run(e, mk, s) })
 				return
@@ -92,7 +92,7 @@ func init() {
 				return
 			}
 			for _, op := range alphabet {
-				if len(seq) > 0 && seq[len(seq)-1] == op && strings.Contains("FCARKWG", op) {
+				if len(seq) > 0 && seq[len(seq)-1] == op && strings.Contains("FCARKWGX", op) {
 					continue
 				}
 				rec(append(seq, op))
@@ -190,6 +190,31 @@ func c23Run(e *enumCtx, masterKey []byte, seq []string) (string, string) {
 			}
 		case "A":
 			time.Sleep(2 * time.Second)
+		case "X":
+			// environment deviation: some caller asks for the latest data key while KEYREGISTRY cannot
+			// be written (the descriptor is swapped for a read-only one for this single call).  When a
+			// rotation is due the call must fail and leave the registry as it was: the next caller gets a
+			// persisted key, never "no key" (which means "write plaintext").
+			kr := db.registry
+			ro, oerr := os.Open(filepath.Join(dir, KeyRegistryFileName))
+			if oerr != nil {
+				return "c23-op", oerr.Error()
+			}
+			kr.Lock()
+			saved := kr.fp
+			kr.fp = ro
+			kr.Unlock()
+			dk, xerr := kr.LatestDataKey()
+			kr.Lock()
+			kr.fp = saved
+			kr.Unlock()
+			_ = ro.Close()
+			if xerr == nil && dk == nil {
+				return "enc-no-data-key", fmt.Sprintf("after %v: LatestDataKey returned no key and no error on an encrypted database", seq[:i+1])
+			}
+			if dk2, e2 := kr.LatestDataKey(); e2 != nil || dk2 == nil {
+				return "enc-no-data-key", fmt.Sprintf("after %v: after a failed KEYREGISTRY write (%v) the next LatestDataKey returned key %v, error %v: files would be written in plaintext", seq[:i+1], xerr, dk2, e2)
+			}
 		case "R":
 			if err = db.Close(); err == nil {
 				if s := reopen(key); s != "" {
